@@ -20,7 +20,7 @@ theorem render_length_pos (cx : Ctx) (s : S) (hok : okS cx s) : 1 ≤ (render s)
   | paren alts => rw [render]; simp
   | neg m => rw [render]; simp
   | star => rw [render]; simp
-  | term kt kv vt vv => rw [render]; simp; omega
+  | term kt kv v => rw [render]; simp; omega
   | list kt kv vs => rw [render]; simp; omega
 
 theorem delim_renderT (cx : Ctx) (items : List (Bool × S)) (x : Bytes) (hx : Delim cx x) :
@@ -67,13 +67,13 @@ theorem parseM (cx : Ctx) : ∀ (s : S), okS cx s → ∀ (f : Nat) (tail : Byte
       refine ⟨.op .and [], ?_, GoodT.star.congr (by intros; simp [sem])⟩
       rw [render, List.cons_append, List.nil_append, matchF, next_op cx false cStar tail e (by decide)]
       simp (config := { decide := true }) only [mkTok, if_true, if_false]
-  | .term kt kv vt vv, hok, f, tail, e, hf, hd => by
+  | .term kt kv v, hok, f, tail, e, hf, hd => by
     rw [okS] at hok
-    obtain ⟨⟨k1, hk⟩, ⟨k2, hv⟩⟩ := hok
+    obtain ⟨⟨k1, hk⟩, hv⟩ := hok
     match f, hf with
     | f + 1, _ =>
       rw [render, List.append_assoc, List.cons_append]
-      exact ⟨_, matchF_term cx f hk hv tail hd e, (GoodT.lit kv vv _).congr (by intros; simp [sem])⟩
+      exact ⟨_, matchF_term cx f hk v hv tail hd e, (GoodT.leaf kv v _).congr (by intros; simp [sem])⟩
   | .list kt kv vs, hok, f, tail, e, hf, hd => by
     rw [okS] at hok
     obtain ⟨⟨k1, hk⟩, hne, hw⟩ := hok
@@ -82,7 +82,7 @@ theorem parseM (cx : Ctx) : ∀ (s : S), okS cx s → ∀ (f : Nat) (tail : Byte
       have hshape : render (.list kt kv vs) ++ tail = kt ++ cColon :: cLP :: (renderVs vs ++ cRP :: tail) := by
         rw [render]; simp
       rw [hshape]
-      exact ⟨_, matchF_list cx f hk vs hne hw tail e, (GoodT.lits kv _ vs).congr (by intros; simp [sem])⟩
+      exact ⟨_, matchF_list cx f hk vs hne hw tail e, (GoodT.leaves kv _ vs).congr (by intros; simp [sem])⟩
   | .neg m, hok, f, tail, e, hf, hd => by
     rw [okS] at hok
     match f, hf with
